@@ -1,4 +1,534 @@
+// own engine (DESIGN §2.1): reference-ownership typing of MEDDLY::node_handle values.
+// Per-function, path-sensitive forward dataflow over the clang CFG.  Token of a handle value:
+//   U untracked · T terminal · B borrowed · O owns one reference · M moved (ownership handed on)
+// Alarms only on definite facts; anything unmodelled degrades to U (a possible miss, never an alarm).
 #include "common.h"
+
 namespace msa {
-llvm::json::Value runOwn(ASTContext &Ctx) { return nullptr; }
+using llvm::json::Array;
+using llvm::json::Object;
+using llvm::json::Value;
+
+namespace {
+
+enum Tok { U, T, B, O, M };
+static const char* tokName(Tok t) { switch (t) { case U: return "U"; case T: return "T"; case B: return "B"; case O: return "O"; default: return "M"; } }
+
+enum Role { R_BORROW, R_CONSUME, R_OUT_OWNED, R_INOUT, R_OUT_BORROWED, R_IGNORE, R_OUT_TERMINAL, R_TERMINAL_IN, R_CONSUME_ZERO };
+enum Ret { RET_NONE, RET_OWNED, RET_BORROWED, RET_TERMINAL, RET_UNKNOWN };
+
+struct Summary {
+  std::map<unsigned, Role> params; // index (0-based, among all params) -> role
+  Ret ret = RET_UNKNOWN;
+};
+
+// ---- summaries by (unqualified class::name) -------------------------------------------------
+static bool getSummary(const FunctionDecl *FD, Summary &S) {
+  std::string q = FD->getQualifiedNameAsString();
+  // strip template args in qualified name for matching
+  auto has = [&](const char *s) { return q.find(s) != std::string::npos; };
+  auto ends = [&](const std::string &suf) { return q.size() >= suf.size() && q.compare(q.size() - suf.size(), suf.size(), suf) == 0; };
+  unsigned n = FD->getNumParams();
+  // default: by-value node_handle -> borrow, node_handle& -> out-owned
+  for (unsigned i = 0; i < n; i++) {
+    bool isRef; if (!isNodeHandleType(FD->getParamDecl(i)->getType(), isRef)) continue;
+    bool isConst = FD->getParamDecl(i)->getType().getNonReferenceType().isConstQualified();
+    S.params[i] = (isRef && !isConst) ? R_OUT_OWNED : R_BORROW;
+  }
+  bool r; S.ret = isNodeHandleType(FD->getReturnType(), r) ? RET_UNKNOWN : RET_NONE;
+
+  if (ends("forest::linkNode")) { S.ret = RET_OWNED; return true; }
+  if (ends("forest::unlinkNode")) { S.params[0] = R_CONSUME; return true; }
+  if (ends("node_headers::linkNode")) { S.ret = RET_OWNED; return true; }
+  if (ends("node_headers::unlinkNode")) { S.params[0] = R_CONSUME; return true; }
+  if (ends("forest::makeRedundantsTo") || ends("forest::_makeRedundantsTo") ||
+      ends("forest::makeIdentitiesTo") || ends("forest::_makeIdentitiesTo")) { S.params[0] = R_CONSUME; S.ret = RET_OWNED; return true; }
+  if (ends("forest::redirectSingleton")) { S.params[1] = R_CONSUME; S.ret = RET_OWNED; return true; }
+  if (ends("unpacked_node::setFull") || ends("unpacked_node::setSparse")) {
+    for (auto &p : S.params) p.second = R_CONSUME; return true; }
+  if (ends("dd_edge::set")) { for (auto &p : S.params) p.second = R_CONSUME; return true; }
+  if (ends("dd_edge::set_and_link")) { return true; }
+  if (ends("dd_edge::xferNode")) { S.params[0] = R_OUT_OWNED; return true; }
+  if (ends("dd_edge::getNode")) { S.ret = RET_BORROWED; return true; }
+  if (ends("unpacked_node::down")) { S.ret = RET_UNKNOWN; return true; }
+  if (ends("ct_item::getN")) { S.ret = RET_BORROWED; return true; }
+  if (ends("terminal::getHandle") || ends("terminal::getIntegerHandle") || ends("terminal::getRealHandle") ||
+      ends("forest::handleForValue") || ends("forest::getTransparentNode")) { S.ret = RET_TERMINAL; return true; }
+  if (ends("forest::getDownPtr")) { S.ret = RET_BORROWED; for (auto &p : S.params) if (p.second == R_OUT_OWNED) p.second = R_OUT_BORROWED; return true; }
+  if (ends("forest::isSingletonNode") || ends("node_storage::isSingletonNode")) { for (auto &p : S.params) if (p.second == R_OUT_OWNED) p.second = R_OUT_BORROWED; return true; }
+  if (ends("forest::getEdgeForValue") || ends("forest::getTransparentEdge")) { for (auto &p : S.params) if (p.second == R_OUT_OWNED) p.second = R_OUT_TERMINAL; return true; }
+  if (ends("::chainToLevel")) { S.params[0] = R_INOUT; return true; }
+  if (ends("fbuilder_forest::addToNode")) { for (auto &p : S.params) p.second = R_CONSUME; return true; }
+  if (ends("fbuilder_common::accumulate")) { // (L,in,av, ap&, cv, cp&): ap consumed (set 0), cp in-out
+    bool first = true; for (auto &p : S.params) { if (p.second == R_OUT_OWNED) { p.second = first ? R_CONSUME_ZERO : R_INOUT; first = false; } } return true; }
+  if (ends("fbuilder_forest::setPathToBottom") || ends("fbuilder_forest::relPathToBottom") || ends("fbuilder_forest::identityPattern")) {
+    for (auto &p : S.params) if (p.second == R_OUT_OWNED) p.second = R_INOUT; return true; }
+  if (ends("::simplifiesToFirstArg") || ends("::simplifiesToSecondArg")) { for (auto &p : S.params) if (p.second == R_OUT_OWNED) p.second = R_IGNORE; return true; }
+  if (ends("::normalize")) { return true; }
+  if (has("createReducedNode")) {
+    // new style: (un, ev, node&, in) ; old: (in, un) returns owned ; templ old (in, un, ev&, node&)
+    if (S.ret != RET_NONE) S.ret = RET_OWNED;
+    return true; }
+  if (ends("SWAP")) { for (auto &p : S.params) p.second = R_IGNORE; return true; }
+  if (ends("::identity_complement") || ends("::_identity_complement")) { S.params[0] = R_CONSUME; S.ret = RET_OWNED; return true; }
+  if (ends("::F_identity") || ends("::_F_identity")) { for (auto &p : S.params) if (p.second == R_OUT_OWNED) p.second = R_INOUT; return true; }
+  if (ends("::addToCi")) { for (auto &p : S.params) if (p.second == R_BORROW) p.second = R_CONSUME; return true; }
+  if (ends("::apply")) { for (auto &p : S.params) if (p.second == R_BORROW) p.second = R_TERMINAL_IN; return true; }
+  if (ends("::setUnreachable")) { for (auto &p : S.params) if (p.second == R_OUT_OWNED) p.second = R_OUT_TERMINAL; return true; }
+  if (has("evaluator_helper")) { for (auto &p : S.params) if (p.second == R_OUT_OWNED) p.second = R_IGNORE; return true; }
+  if (ends("node_storage::getDownPtr") || ends("simple_separated::getDownPtr")) { S.ret = RET_BORROWED; for (auto &p : S.params) if (p.second == R_OUT_OWNED) p.second = R_OUT_BORROWED; return true; }
+  if (ends("::makeEqualResult")) { return true; }
+  if (ends("::nextEdge")) { for (auto &p : S.params) if (p.second == R_OUT_OWNED) p.second = R_OUT_BORROWED; return true; }
+  return false;
 }
+
+// ---- abstract state ---------------------------------------------------------------------------
+struct State {
+  std::map<const VarDecl*, int> var2val;    // variable -> value id
+  std::vector<Tok> tok;                     // value id -> token
+  std::map<const Expr*, int> tmp;           // call results pending consumption
+  std::map<const VarDecl*, int> flags;      // local bool -> 0/1
+  std::map<const VarDecl*, int> nodeKind;   // unpacked_node* var -> 1 readable, 2 writable, 3 redundant-of
+  std::map<const VarDecl*, int> nodeOrigin; // for kind 3: value id of the filled handle
+  std::string key() const {
+    std::ostringstream os;
+    // canonical renumbering
+    std::map<int,int> ren; int next = 0;
+    for (auto &p : var2val) { if (!ren.count(p.second)) ren[p.second] = next++; os << (const void*)p.first << ":" << ren[p.second] << tokName(tok[p.second]) << ";"; }
+    for (auto &p : tmp) { os << "t" << (const void*)p.first << tokName(tok[p.second]) << ";"; }
+    for (auto &p : flags) os << "f" << (const void*)p.first << p.second << ";";
+    for (auto &p : nodeKind) os << "n" << (const void*)p.first << p.second << ";";
+    return os.str();
+  }
+  int fresh(Tok t) { tok.push_back(t); return (int)tok.size() - 1; }
+};
+
+struct Diag { std::string rule, sink, msg; unsigned line; };
+
+class FnAnalyzer {
+public:
+  FnAnalyzer(ASTContext &C, const FunctionDecl *F) : Ctx(C), FD(F), SM(C.getSourceManager()) {}
+  std::vector<Diag> diags;
+  unsigned nStates = 0, nTracked = 0, nSuppressed = 0, nEvents = 0;
+  bool giveUp = false, partial = false;
+  std::set<const Stmt *> countedEvents;
+  void event(const Stmt *S) { if (countedEvents.insert(S).second) nEvents++; }
+
+  unsigned lineOf(const Stmt *S) { return msa::lineOf(SM, S->getBeginLoc()); }
+  void report(const char *rule, const Stmt *S, const std::string &sink, const std::string &m) {
+    unsigned l = S ? lineOf(S) : 0;
+    {
+      // named suppressions: (function substring, variable, rule, reason)
+      static const char* sup[][4] = {
+        {"fbuilder", "dnc_node", "own.leak", "DONT_CARE arm of the partition loop runs at most once (values strictly increase)"},
+        {"_identity_complement", "'p'", "own.leak", "incoming index `in` is a valid index of the level, so the j==in arm runs exactly once"},
+        {"_F_identity", "'p'", "own.leak", "incoming index `in` is a valid index of the level, so the j==in arm runs exactly once"},
+        {nullptr,nullptr,nullptr,nullptr}};
+      std::string q = FD->getQualifiedNameAsString();
+      for (int i = 0; sup[i][0]; i++) if (q.find(sup[i][0]) != std::string::npos && m.find(sup[i][1]) != std::string::npos && std::string(rule) == sup[i][2]) { nSuppressed++; return; }
+    }
+    for (auto &d : diags) if (d.rule == rule && d.line == l && d.msg == m) return;
+    diags.push_back({rule, sink, m, l});
+  }
+
+  bool isTracked(const VarDecl *VD) { return tracked.count(VD); }
+
+  // value of an expression of handle type in state S; returns value id (creating one if needed)
+  int valueOf(State &S, const Expr *E0) {
+    const Expr *E = strip(E0);
+    if (!E) return S.fresh(U);
+    if (auto *DR = dyn_cast<DeclRefExpr>(E)) {
+      if (auto *VD = dyn_cast<VarDecl>(DR->getDecl())) {
+        if (isTracked(VD)) {
+          auto it = S.var2val.find(VD);
+          if (it != S.var2val.end()) return it->second;
+          int v = S.fresh(U); S.var2val[VD] = v; return v;
+        }
+        std::string n = VD->getNameAsString();
+        if (n.rfind("OMEGA_", 0) == 0) return S.fresh(T);
+      }
+      return S.fresh(U);
+    }
+    if (isa<IntegerLiteral>(E)) return S.fresh(T);
+    if (auto *UO = dyn_cast<UnaryOperator>(E)) { if (UO->getOpcode() == UO_Minus && isa<IntegerLiteral>(strip(UO->getSubExpr()))) return S.fresh(T); }
+    if (auto *CO = dyn_cast<ConditionalOperator>(E)) {
+      // both arms: if both same token class, use it; else U
+      int a = valueOf(S, CO->getTrueExpr()), b = valueOf(S, CO->getFalseExpr());
+      if (a == b) return a;
+      if (S.tok[a] == S.tok[b] && (S.tok[a] == T || S.tok[a] == B)) return S.fresh(S.tok[a]);
+      return S.fresh(U);
+    }
+    auto it = S.tmp.find(E);
+    if (it != S.tmp.end()) return it->second;
+    if (auto *MC = dyn_cast<CXXMemberCallExpr>(E)) if (const CXXMethodDecl *MD = MC->getMethodDecl()) if (MD->getNameAsString() == "down") {
+      if (const VarDecl *NV = nodeVarOf(MC->getImplicitObjectArgument())) { auto k = S.nodeKind.find(NV); if (k != S.nodeKind.end() && (k->second == 1 || k->second == 3)) return S.fresh(B); }
+    }
+    return S.fresh(U);
+  }
+
+  bool nodeVarOfDecl(const VarDecl *VD) {
+    QualType QT = VD->getType(); if (QT->isPointerType() || QT->isReferenceType()) QT = QT->getPointeeType();
+    if (const CXXRecordDecl *RD = QT->getAsCXXRecordDecl()) return RD->getName() == "unpacked_node"; return false; }
+  const VarDecl* nodeVarOf(const Expr *E0) {
+    const Expr *E = strip(E0);
+    if (auto *UO = dyn_cast_or_null<UnaryOperator>(E)) if (UO->getOpcode() == UO_Deref) E = strip(UO->getSubExpr());
+    if (auto *DR = dyn_cast_or_null<DeclRefExpr>(E)) if (auto *VD = dyn_cast<VarDecl>(DR->getDecl())) {
+      QualType QT = VD->getType(); if (QT->isPointerType() || QT->isReferenceType()) QT = QT->getPointeeType();
+      if (const CXXRecordDecl *RD = QT->getAsCXXRecordDecl()) if (RD->getName() == "unpacked_node") return VD;
+    }
+    return nullptr;
+  }
+
+  // is statement At inside the then-branch of `if (loopvar == expr)` where loopvar is declared in an enclosing for-init?
+  bool underUniqueIndexGuard(const Stmt *At) {
+    DynTypedNode N = DynTypedNode::create(*At);
+    for (int depth = 0; depth < 12; depth++) {
+      auto Ps = Ctx.getParents(N); if (Ps.empty()) return false;
+      const DynTypedNode &P = Ps[0];
+      if (const IfStmt *IS = P.get<IfStmt>()) {
+        const Expr *C = strip(IS->getCond());
+        if (auto *BO = dyn_cast_or_null<BinaryOperator>(C)) if (BO->getOpcode() == BO_EQ) {
+          for (const Expr *Side : {BO->getLHS(), BO->getRHS()}) if (auto *DR = dyn_cast_or_null<DeclRefExpr>(strip(Side))) if (auto *VD = dyn_cast<VarDecl>(DR->getDecl())) {
+            auto VPs = Ctx.getParents(*VD);
+            if (!VPs.empty()) if (const DeclStmt *DS = VPs[0].get<DeclStmt>()) { auto DPs = Ctx.getParents(*DS); if (!DPs.empty() && DPs[0].get<ForStmt>()) {
+              // make sure we are in the then branch
+              const Stmt *Child = N.get<Stmt>(); if (Child && IS->getThen() == Child) return true; } }
+          }
+        }
+      }
+      N = P;
+    }
+    return false;
+  }
+
+  void consume(State &S, const Expr *Arg, const Stmt *At, const std::string &what) {
+    event(At);
+    int v = valueOf(S, Arg);
+    Tok t = S.tok[v];
+    if (t == B) report("own.borrowed-escapes", At, what + "(" + exprText(Arg) + ")", "borrowed handle given to owning sink " + what + ": " + exprText(Arg));
+    else if (t == M) { if (!underUniqueIndexGuard(At)) report("own.double-move", At, what + "(" + exprText(Arg) + ")", "already-moved handle given to owning sink " + what + ": " + exprText(Arg)); }
+    else if (t == O) S.tok[v] = M;
+  }
+
+  std::string exprText(const Expr *E) { return msa::exprText(Ctx, E); }
+
+  void overwriteVar(State &S, const VarDecl *VD, int newVal, const Stmt *At) {
+    event(At);
+    auto it = S.var2val.find(VD);
+    if (it != S.var2val.end()) {
+      int old = it->second;
+      if (S.tok[old] == O && old != newVal) {
+        // any other variable aliasing old?
+        bool aliased = false;
+        for (auto &p : S.var2val) if (p.first != VD && p.second == old) aliased = true;
+        if (!aliased) report("own.leak", At, "overwrite:" + VD->getNameAsString(), "owned handle in '" + VD->getNameAsString() + "' overwritten without release/store");
+      }
+    }
+    S.var2val[VD] = newVal;
+  }
+
+  const VarDecl* asTrackedVar(const Expr *E0) {
+    const Expr *E = strip(E0);
+    if (auto *DR = dyn_cast_or_null<DeclRefExpr>(E)) if (auto *VD = dyn_cast<VarDecl>(DR->getDecl())) if (isTracked(VD)) return VD;
+    return nullptr;
+  }
+
+  void handleCall(State &S, const CallExpr *CE) {
+    const FunctionDecl *Callee = CE->getDirectCallee();
+    bool retIsHandle = false; { bool r; retIsHandle = isNodeHandleType(CE->getType(), r); if (!retIsHandle && Callee) retIsHandle = isNodeHandleType(Callee->getReturnType(), r); }
+    if (!Callee) { if (retIsHandle) S.tmp[CE] = S.fresh(U); return; }
+    Summary Sum; getSummary(Callee, Sum);
+    // argument offset: for CXXOperatorCallExpr on member operator, arg0 is object
+    unsigned argOff = 0;
+    if (isa<CXXOperatorCallExpr>(CE) && isa<CXXMethodDecl>(Callee)) argOff = 1;
+    // unpacked node bookkeeping
+    {
+      std::string cq = Callee->getQualifiedNameAsString();
+      if (cq.find("createReducedNode") != std::string::npos || cq.find("modifyReducedNodeInPlace") != std::string::npos) {
+        for (unsigned ai = 0; ai < CE->getNumArgs(); ai++) if (const VarDecl *NV = nodeVarOf(CE->getArg(ai))) {
+          auto k = S.nodeKind.find(NV);
+          if (k != S.nodeKind.end() && k->second == 3) { int v = S.nodeOrigin[NV]; Tok t = S.tok[v];
+            if (t == B) report("own.borrowed-escapes", CE, "reduce(redundant-of)", "redundant node built from a borrowed handle is reduced (its slot 0 needs an owned reference)");
+            else if (t == M) report("own.double-move", CE, "reduce(redundant-of)", "redundant node built from an already-moved handle is reduced");
+            else if (t == O) S.tok[v] = M; }
+          S.nodeKind[NV] = 0;
+        }
+      }
+    }
+    for (auto &p : Sum.params) {
+      unsigned ai = p.first + argOff;
+      if (ai >= CE->getNumArgs()) continue;
+      const Expr *A = CE->getArg(ai);
+      if (isa<CXXDefaultArgExpr>(A)) continue;
+      switch (p.second) {
+        case R_BORROW: case R_IGNORE: break;
+        case R_CONSUME: consume(S, A, CE, Callee->getNameAsString()); break;
+        case R_INOUT: {
+          int v = valueOf(S, A); Tok t = S.tok[v];
+          if (t == B) report("own.borrowed-escapes", CE, Callee->getNameAsString() + "(" + exprText(A) + ")", "borrowed handle passed as in-out owned to " + Callee->getNameAsString() + ": " + exprText(A));
+          if (t == M) report("own.double-move", CE, Callee->getNameAsString() + "(" + exprText(A) + ")", "moved handle passed as in-out owned to " + Callee->getNameAsString() + ": " + exprText(A));
+          if (t == O) S.tok[v] = M;
+          if (const VarDecl *VD = asTrackedVar(A)) S.var2val[VD] = S.fresh(O);
+          break; }
+        case R_OUT_OWNED: {
+          if (const VarDecl *VD = asTrackedVar(A)) overwriteVar(S, VD, S.fresh(O), CE);
+          break; }
+        case R_OUT_BORROWED: {
+          if (const VarDecl *VD = asTrackedVar(A)) overwriteVar(S, VD, S.fresh(B), CE);
+          break; }
+        case R_OUT_TERMINAL: {
+          if (const VarDecl *VD = asTrackedVar(A)) overwriteVar(S, VD, S.fresh(T), CE);
+          break; }
+        case R_TERMINAL_IN: break;
+        case R_CONSUME_ZERO: {
+          consume(S, A, CE, Callee->getNameAsString());
+          if (const VarDecl *VD = asTrackedVar(A)) S.var2val[VD] = S.fresh(T);
+          break; }
+      }
+    }
+    if (retIsHandle) {
+      switch (Sum.ret) {
+        case RET_OWNED: S.tmp[CE] = S.fresh(O); break;
+        case RET_BORROWED: S.tmp[CE] = S.fresh(B); break;
+        case RET_TERMINAL: S.tmp[CE] = S.fresh(T); break;
+        default: S.tmp[CE] = S.fresh(U); break;
+      }
+    }
+  }
+
+  void noteNodeInit(State &S, const VarDecl *NV, const Expr *Init) {
+    const Expr *E = strip(Init);
+    if (auto *CO = dyn_cast_or_null<ConditionalOperator>(E)) { // take the weaker of the two arms
+      State A = S, Bq = S; noteNodeInit(A, NV, CO->getTrueExpr()); noteNodeInit(Bq, NV, CO->getFalseExpr());
+      int ka = A.nodeKind.count(NV) ? A.nodeKind[NV] : 0, kb = Bq.nodeKind.count(NV) ? Bq.nodeKind[NV] : 0;
+      if (ka == kb && ka != 3) S.nodeKind[NV] = ka; else if ((ka == 1 || ka == 3) && (kb == 1 || kb == 3)) S.nodeKind[NV] = 1; else S.nodeKind[NV] = 0; return; }
+    if (auto *CE = dyn_cast_or_null<CallExpr>(E)) if (const FunctionDecl *C = CE->getDirectCallee()) {
+      std::string q = C->getQualifiedNameAsString();
+      if (q.find("unpacked_node::newWritable") != std::string::npos) { S.nodeKind[NV] = 2; return; }
+      if (q.find("unpacked_node::newRedundant") != std::string::npos || q.find("unpacked_node::newIdentity") != std::string::npos) {
+        // find the handle argument
+        for (unsigned i = 0; i < CE->getNumArgs() && i < C->getNumParams(); i++) { bool r; if (isNodeHandleType(C->getParamDecl(i)->getType(), r)) { S.nodeKind[NV] = 3; S.nodeOrigin[NV] = valueOf(S, CE->getArg(i)); return; } }
+      }
+      if (q.find("unpacked_node::New") != std::string::npos || q.find("unpacked_node::newFromNode") != std::string::npos) { S.nodeKind[NV] = 1; return; }
+    }
+    S.nodeKind[NV] = 0;
+  }
+
+  void handleStmt(State &S, const Stmt *St) {
+    if (auto *CE = dyn_cast<CallExpr>(St)) { handleCall(S, CE); return; }
+    if (auto *BO = dyn_cast<BinaryOperator>(St)) if (BO->getOpcode() == BO_Assign) {
+      if (const VarDecl *NV = nodeVarOf(BO->getLHS())) { noteNodeInit(S, NV, BO->getRHS()); return; }
+      if (auto *DR = dyn_cast<DeclRefExpr>(strip(BO->getLHS()))) if (auto *VD = dyn_cast<VarDecl>(DR->getDecl())) if (VD->getType()->isBooleanType() && VD->isLocalVarDecl()) {
+        if (auto *BL = dyn_cast<CXXBoolLiteralExpr>(strip(BO->getRHS()))) S.flags[VD] = BL->getValue() ? 1 : 0; else S.flags.erase(VD);
+        return; }
+    }
+    if (auto *DS = dyn_cast<DeclStmt>(St)) for (auto *D : DS->decls()) if (auto *VD = dyn_cast<VarDecl>(D)) {
+      if (VD->hasInit() && nodeVarOfDecl(VD)) noteNodeInit(S, VD, VD->getInit());
+      if (VD->getType()->isBooleanType() && VD->isLocalVarDecl() && VD->hasInit()) if (auto *BL = dyn_cast<CXXBoolLiteralExpr>(strip(VD->getInit()))) S.flags[VD] = BL->getValue() ? 1 : 0;
+    }
+    if (auto *BO = dyn_cast<BinaryOperator>(St)) {
+      if (BO->getOpcode() == BO_Assign) {
+        if (const VarDecl *VD = asTrackedVar(BO->getLHS())) {
+          int v = valueOf(S, BO->getRHS());
+          overwriteVar(S, VD, v, BO);
+        } else {
+          bool r; if (isNodeHandleType(BO->getLHS()->getType(), r)) {
+            // store into untracked location (array elt, field): ownership escapes -> moved, no alarm
+            int v = valueOf(S, BO->getRHS()); if (S.tok[v] == O) S.tok[v] = M;
+          }
+        }
+      }
+      return;
+    }
+    if (auto *DS = dyn_cast<DeclStmt>(St)) {
+      for (auto *D : DS->decls()) if (auto *VD = dyn_cast<VarDecl>(D)) if (isTracked(VD)) {
+        if (VD->hasInit()) { int v = valueOf(S, VD->getInit()); S.var2val[VD] = v; }
+        else S.var2val[VD] = S.fresh(U);
+      }
+      return;
+    }
+    if (auto *RS = dyn_cast<ReturnStmt>(St)) {
+      if (RS->getRetValue()) { bool r; if (isNodeHandleType(FD->getReturnType(), r)) {
+        int v = valueOf(S, RS->getRetValue());
+        if (retOwned) { Tok t = S.tok[v];
+          if (t == B) report("own.borrowed-escapes", RS, "return", "borrowed handle returned as owned: " + exprText(RS->getRetValue()));
+          if (t == M) report("own.double-move", RS, "return", "moved handle returned as owned: " + exprText(RS->getRetValue()));
+          if (t == O) S.tok[v] = M; }
+        else { if (S.tok[v] == O) S.tok[v] = M; }
+      } }
+      return;
+    }
+  }
+
+  // refine state N knowing condition C evaluated to `truth`; returns false if infeasible
+  bool refine(State &N, const Expr *C0, bool truth) {
+    const Expr *C = strip(C0);
+    while (auto *UO = dyn_cast_or_null<UnaryOperator>(C)) { if (UO->getOpcode() != UO_LNot) break; truth = !truth; C = strip(UO->getSubExpr()); }
+    if (!C) return true;
+    auto setT = [&](const Expr *X) { if (const VarDecl *VD = asTrackedVar(X)) { auto it = N.var2val.find(VD); if (it != N.var2val.end()) { if (N.tok[it->second] != M) N.tok[it->second] = T; } else N.var2val[VD] = N.fresh(T); } };
+    auto isZeroLit = [&](const Expr *X) { const Expr *Y = strip(X); if (auto *IL = dyn_cast_or_null<IntegerLiteral>(Y)) return IL->getValue() == 0; if (auto *DR = dyn_cast_or_null<DeclRefExpr>(Y)) { std::string n = DR->getDecl()->getNameAsString(); return n == "OMEGA_INFINITY" || n == "OMEGA_ZERO"; } return false; };
+    auto isTermConst = [&](const Expr *X) { const Expr *Y = strip(X); if (isa<IntegerLiteral>(Y)) return true; if (auto *UO = dyn_cast<UnaryOperator>(Y)) if (UO->getOpcode() == UO_Minus) return true; if (auto *DR = dyn_cast_or_null<DeclRefExpr>(Y)) { std::string n = DR->getDecl()->getNameAsString(); return n.rfind("OMEGA_", 0) == 0; } return false; };
+    if (auto *DR = dyn_cast<DeclRefExpr>(C)) {
+      if (auto *VD = dyn_cast<VarDecl>(DR->getDecl())) {
+        if (isTracked(VD)) { if (!truth) setT(C); return true; }
+        auto f = N.flags.find(VD); if (f != N.flags.end()) return (f->second == 1) == truth;
+      }
+      return true;
+    }
+    if (auto *BO = dyn_cast<BinaryOperator>(C)) {
+      const Expr *L = BO->getLHS(), *R = BO->getRHS();
+      switch (BO->getOpcode()) {
+        case BO_EQ: if (truth) { if (isTermConst(L) && asTrackedVar(R)) setT(R); if (isTermConst(R) && asTrackedVar(L)) setT(L); } break;
+        case BO_NE: if (!truth) { if (isTermConst(L) && asTrackedVar(R)) setT(R); if (isTermConst(R) && asTrackedVar(L)) setT(L); } break;
+        case BO_LE: case BO_LT: if (truth && asTrackedVar(L) && isTermConst(R)) { // x <= 0, x < 1, x < 0
+            Expr::EvalResult ER; if (R->EvaluateAsInt(ER, Ctx)) { long v = ER.Val.getInt().getExtValue(); if ((BO->getOpcode() == BO_LE && v <= 0) || (BO->getOpcode() == BO_LT && v <= 1)) setT(L); } } break;
+        case BO_GT: case BO_GE: if (!truth && asTrackedVar(L) && isTermConst(R)) { Expr::EvalResult ER; if (R->EvaluateAsInt(ER, Ctx)) { long v = ER.Val.getInt().getExtValue(); if ((BO->getOpcode() == BO_GT && v <= 0) || (BO->getOpcode() == BO_GE && v <= 1)) setT(L); } } break;
+        default: break;
+      }
+      (void)isZeroLit;
+      return true;
+    }
+    if (auto *CE = dyn_cast<CallExpr>(C)) if (const FunctionDecl *F = CE->getDirectCallee()) {
+      std::string n = F->getNameAsString();
+      if (truth && (n == "isTerminalNode" || n == "isTransparentEdge" || n == "isUnreachable")) {
+        for (unsigned i = 0; i < CE->getNumArgs() && i < F->getNumParams(); i++) { bool r; if (isNodeHandleType(F->getParamDecl(i)->getType(), r)) setT(CE->getArg(i)); }
+      }
+    }
+    return true;
+  }
+
+  void checkExit(State &S, const Stmt *At) {
+    event(At);
+    // out params
+    for (const ParmVarDecl *P : outParams) {
+      auto it = S.var2val.find(P); if (it == S.var2val.end()) continue;
+      Tok t = S.tok[it->second];
+      if (t == B) report("own.borrowed-escapes", At, "exit:" + P->getNameAsString(), "out-parameter '" + P->getNameAsString() + "' holds a borrowed handle at exit");
+      if (t == M) report("own.double-move", At, "exit:" + P->getNameAsString(), "out-parameter '" + P->getNameAsString() + "' holds an already-moved handle at exit");
+      if (t == O) S.tok[it->second] = M; // handed to caller
+    }
+    std::set<int> seen;
+    for (auto &p : S.var2val) {
+      if (S.tok[p.second] == O && !seen.count(p.second)) {
+        seen.insert(p.second);
+        report("own.leak", At, "exit:" + p.first->getNameAsString(), "owned handle in '" + p.first->getNameAsString() + "' not released/stored at function exit");
+      }
+    }
+  }
+
+  void run() {
+    if (!FD->hasBody()) return;
+    // collect tracked vars
+    struct Coll : RecursiveASTVisitor<Coll> { std::set<const VarDecl*> *out; bool VisitVarDecl(VarDecl *VD) { bool r; if (isNodeHandleType(VD->getType(), r) && (VD->isLocalVarDeclOrParm())) out->insert(VD); return true; } };
+    Coll c; c.out = &tracked; c.TraverseDecl(const_cast<FunctionDecl*>(FD));
+    nTracked = tracked.size();
+    if (tracked.empty()) return;
+    Summary Self; bool inTable = getSummary(FD, Self); (void)inTable;
+    retOwned = (Self.ret == RET_OWNED);
+    State Init;
+    for (unsigned i = 0; i < FD->getNumParams(); i++) {
+      const ParmVarDecl *P = FD->getParamDecl(i);
+      if (!tracked.count(P)) continue;
+      Role r = Self.params.count(i) ? Self.params[i] : R_BORROW;
+      switch (r) {
+        case R_BORROW: case R_IGNORE: Init.var2val[P] = Init.fresh(B); break;
+        case R_CONSUME: Init.var2val[P] = Init.fresh(O); break;
+        case R_INOUT: Init.var2val[P] = Init.fresh(O); outParams.push_back(P); break;
+        case R_CONSUME_ZERO: Init.var2val[P] = Init.fresh(O); break;
+        case R_TERMINAL_IN: Init.var2val[P] = Init.fresh(T); break;
+        case R_OUT_TERMINAL: Init.var2val[P] = Init.fresh(U); break;
+        case R_OUT_OWNED: Init.var2val[P] = Init.fresh(U); outParams.push_back(P); break;
+        case R_OUT_BORROWED: Init.var2val[P] = Init.fresh(U); break;
+      }
+    }
+    std::unique_ptr<CFG> cfg = buildCFG(Ctx, FD);
+    if (!cfg) { giveUp = true; return; }
+    std::map<const CFGBlock*, std::set<std::string>> seen;
+    std::deque<std::pair<const CFGBlock*, State>> work;
+    work.push_back({&cfg->getEntry(), Init});
+    while (!work.empty()) {
+      auto [Bk, S] = work.front(); work.pop_front();
+      std::string k = S.key();
+      if (!seen[Bk].insert(k).second) continue;
+      if (++nStates > 200000) { giveUp = true; return; }
+      bool thrown = false;
+      for (const CFGElement &E : *Bk) {
+        if (auto CS = E.getAs<CFGStmt>()) {
+          const Stmt *St = CS->getStmt();
+          if (isa<CXXThrowExpr>(St)) { thrown = true; break; }
+          handleStmt(S, St);
+        }
+      }
+      if (thrown || Bk->hasNoReturnElement()) continue;   // error paths are exempt (C06 excludes them; C16 owns them)
+      if (Bk == &cfg->getExit()) { checkExit(S, FD->getBody()); continue; }
+      // noreturn / throw terminators: successors of a block ending in throw lead to exit; handled by thrown flag
+      const Expr *TC = effectiveCond(Bk);
+      unsigned si = 0;
+      for (auto SI = Bk->succ_begin(); SI != Bk->succ_end(); ++SI, ++si) {
+        const CFGBlock *Succ = SI->getReachableBlock();
+        if (!Succ) continue;
+        State N = S;
+        bool feasible = true;
+        if (TC && Bk->succ_size() == 2) feasible = refine(N, TC, si == 0);
+        N.tmp.clear();
+        if (feasible) work.push_back({Succ, N});
+      }
+    }
+  }
+
+  ASTContext &Ctx; const FunctionDecl *FD; const SourceManager &SM;
+  std::set<const VarDecl*> tracked;
+  std::vector<const ParmVarDecl*> outParams;
+  bool retOwned = false;
+};
+
+// slot-level primitives the summaries describe; their own bodies manipulate counts directly and are the trusted base
+bool isTrusted(const std::string &q) {
+  static const char *trusted[] = {"forest::linkNode", "forest::unlinkNode", "node_headers::linkNode", "node_headers::unlinkNode", "forest::redirectSingleton",
+    "forest::createReducedNode", "forest::deleteNode", "forest::getDownPtr", "dd_edge::set", "dd_edge::set_and_link", "dd_edge::attach", "dd_edge::init", "dd_edge::xferNode",
+    "forest::unlinkAllDown", "forest::linkAllDown", "forest::cacheNode", "forest::uncacheNode", "node_headers::cacheNode", "node_headers::uncacheNode", nullptr};
+  for (int i = 0; trusted[i]; i++) if (endsWith(q, trusted[i])) return true;
+  return false;
+}
+
+} // namespace
+
+Value runOwn(ASTContext &Ctx) {
+  const SourceManager &SM = Ctx.getSourceManager();
+  Array fns;
+  forEachFunction(Ctx, [&](const FunctionDecl *FD) {
+    std::string q = qualName(FD);
+    if (isTrusted(q)) return;
+    FnAnalyzer A(Ctx, FD);
+    A.run();
+    if (A.nTracked == 0) return;
+    Object f;
+    f["q"] = q;
+    f["inst"] = instName(Ctx, FD);
+    f["sig"] = signatureOf(FD);
+    f["file"] = relPath(SM, FD->getLocation());
+    f["line"] = lineOf(SM, FD->getLocation());
+    f["tracked"] = (int64_t)A.nTracked;
+    f["states"] = (int64_t)A.nStates;
+    f["events"] = (int64_t)A.nEvents;
+    f["suppressed"] = (int64_t)A.nSuppressed;
+    f["gave_up"] = A.giveUp;
+    f["partial"] = A.partial;
+    Array ds;
+    for (auto &d : A.diags) {
+      Object o;
+      o["rule"] = d.rule;
+      o["msg"] = d.msg;
+      o["sink"] = d.sink;
+      o["line"] = (int64_t)d.line;
+      ds.push_back(std::move(o));
+    }
+    f["diags"] = std::move(ds);
+    fns.push_back(std::move(f));
+  });
+  Object top;
+  top["functions"] = std::move(fns);
+  return Value(std::move(top));
+}
+
+} // namespace msa
